@@ -129,34 +129,38 @@ example : reqNew [[.str "k", .str "a"]] [.str "k"] c08Doc = some [.str "k", .str
    `ComposedNode.on_merge_impl` (`mergeStep`, for ALL containers, flags and any recursive merge
    `rec`), when `self` has no child `k` the value is adopted as a new child only if
    `_require_all_new` passes on it; otherwise the step fails with the MergeError naming the first
-   offending path below `k`. -/
+   offending path below `k`.  `exc` are the exceptions of the check: none (`[]`) unless `other` is
+   a deleting node, in which case they are the paths its pruning has just removed (only the ones
+   below `k` matter: `excBelow k exc`). -/
 theorem C08_new_key_needs_allow_new (rec : Node → Node → Except Err (Node × Bool)) (sf : Flags)
-    (sk : CompKind) (acc : List (Key × Node)) (k : Key) (value : Node)
+    (sk : CompKind) (exc : List Path) (acc : List (Key × Node)) (k : Key) (value : Node)
     (h : getChild sk k acc = none) :
-    mergeStep rec sf sk acc (k, value) =
-      match reqNew [] [] value with
+    mergeStep rec sf sk exc acc (k, value) =
+      match reqNew (excBelow k exc) [] value with
       | some p => .error (.notnew (k :: p))
       | none => setChild sf sk k value acc :=
   c08_mergeStep_absent rec sf sk acc k value h
 
 example : getChild .dict (.str "n") c08Base.children = none := by decide
-example : mergeStep (mergeF 3) {} .dict c08Base.children (.str "n", .leaf c08Off (.scalar .null)) =
+example : mergeStep (mergeF 3) {} .dict [] c08Base.children (.str "n", .leaf c08Off (.scalar .null)) =
     .error (.notnew [.str "n"]) := rfl
 
 /- Both directions for the dict family: a missing key is created (and then holds the adopted
-   value, every other key untouched by `aset`) iff every node of the inserted subtree allows new. -/
+   value, every other key untouched by `aset`) iff every node of the inserted subtree allows new
+   or sits at a path that the pruning by a deleting `other` has just removed (`k :: q ∈ exc`; with
+   a non-deleting `other`, `exc = []`: iff every node allows new). -/
 theorem C08_new_key_created_iff (rec : Node → Node → Except Err (Node × Bool)) (sf : Flags)
-    (sk : CompKind) (hsk : sk.isDictFam = true) (acc : List (Key × Node)) (k : Key) (value : Node)
-    (h : getChild sk k acc = none) :
-    ((∃ acc', mergeStep rec sf sk acc (k, value) = .ok acc') ↔
-      ∀ q m, c08_nodeAt value q m → eNew m.flags = true) ∧
-    (∀ acc', mergeStep rec sf sk acc (k, value) = .ok acc' → acc' = aset k (adopt sf sk value) acc) := by
-  rw [C08_new_key_needs_allow_new rec sf sk acc k value h]
-  have hs := C08_reqNew_sound [] [] value
-  simp only [List.not_mem_nil, or_false] at hs
-  cases hr : reqNew [] [] value with
+    (sk : CompKind) (exc : List Path) (hsk : sk.isDictFam = true) (acc : List (Key × Node)) (k : Key)
+    (value : Node) (h : getChild sk k acc = none) :
+    ((∃ acc', mergeStep rec sf sk exc acc (k, value) = .ok acc') ↔
+      ∀ q m, c08_nodeAt value q m → eNew m.flags = true ∨ (k :: q) ∈ exc) ∧
+    (∀ acc', mergeStep rec sf sk exc acc (k, value) = .ok acc' → acc' = aset k (adopt sf sk value) acc) := by
+  rw [C08_new_key_needs_allow_new rec sf sk exc acc k value h]
+  have hs := C08_reqNew_sound (excBelow k exc) [] value
+  simp only [List.nil_append, mem_excBelow] at hs
+  cases hr : reqNew (excBelow k exc) [] value with
   | some p =>
-    have : ¬ ∀ q m, c08_nodeAt value q m → eNew m.flags = true := fun hh => by
+    have : ¬ ∀ q m, c08_nodeAt value q m → eNew m.flags = true ∨ (k :: q) ∈ exc := fun hh => by
       have := hs.2 hh; rw [hr] at this; cases this
     simp [this]
   | none =>
@@ -165,9 +169,16 @@ theorem C08_new_key_created_iff (rec : Node → Node → Except Err (Node × Boo
     refine ⟨⟨fun _ => this, fun _ => ⟨_, rfl⟩⟩, ?_⟩
     intro acc' e; injection e with e; exact e.symm
 
-example : (∃ acc', mergeStep (mergeF 3) {} .dict c08Base.children
+example : (∃ acc', mergeStep (mergeF 3) {} .dict [] c08Base.children
     (.str "n", .comp c08On .dict [(.str "deep", .leaf c08On (.scalar (.int 2)))]) = .ok acc') :=
   ⟨_, rfl⟩
+-- with exceptions: `n` itself was just removed, so a `!notnew` value may re-create it …
+example : (∃ acc', mergeStep (mergeF 3) {} .dict [[.str "n"]] c08Base.children
+    (.str "n", .leaf c08Off (.scalar .null)) = .ok acc') := ⟨_, rfl⟩
+-- … but not anything below it that was not there
+example : mergeStep (mergeF 3) {} .dict [[.str "n"]] c08Base.children
+    (.str "n", .comp c08Off .dict [(.str "deep", .leaf c08Off (.scalar (.int 2)))]) =
+    .error (.notnew [.str "n", .str "deep"]) := rfl
 
 /-! ### 3. A mapping below `!notnew` gets no new key -/
 
@@ -175,11 +186,13 @@ example : (∃ acc', mergeStep (mergeF 3) {} .dict c08Base.children
    family and incoming children `ocs` in whose subtrees every node has `allow_new` off
    (`allNotNewList`: content below `!notnew` without nested `!new`), a successful key loop leaves
    no key that was not there before — whatever the recursive merge `rec` does, whatever the flags
-   of `self` (keys may disappear through `!del`, never appear). -/
+   of `self` (keys may disappear through `!del`, never appear).  `exc` are the paths removed by
+   the pruning of a deleting `other` (`[]` otherwise): a key in `scs'` that is not in the pruned
+   `scs` is one of the keys that pruning has just removed, so it did exist before the merge. -/
 theorem C08_notnew_dict_no_new_key (rec : Node → Node → Except Err (Node × Bool)) (sf : Flags)
-    (sk : CompKind) (hsk : sk.isDictFam = true) (scs ocs scs' : List (Key × Node))
-    (hn : allNotNewList ocs = true) (h : mergeLoop rec sf sk scs ocs = .ok scs') :
-    ∀ k, k ∈ akeys scs' → k ∈ akeys scs :=
+    (sk : CompKind) (exc : List Path) (hsk : sk.isDictFam = true) (scs ocs scs' : List (Key × Node))
+    (hn : allNotNewList ocs = true) (h : mergeLoop rec sf sk exc scs ocs = .ok scs') :
+    ∀ k, k ∈ akeys scs' → k ∈ akeys scs ∨ [k] ∈ exc :=
   c08_mergeLoop_no_new_key rec hsk ocs scs scs' (c08_allNotNewList_mem ocs hn) h
 
 /-- `{a: {b: 6}, z: !del 1}` below `!notnew` -/
@@ -188,42 +201,46 @@ def c08Ocs : List (Key × Node) :=
    (.str "z", .leaf { del := some true, iNew := some false } (.scalar (.int 1)))]
 
 example : allNotNewList c08Ocs = true := by decide
-example : ((mergeLoop (mergeF 3) {} .dict c08Base.children c08Ocs).map akeys).toOption =
+example : ((mergeLoop (mergeF 3) {} .dict [] c08Base.children c08Ocs).map akeys).toOption =
     some [.str "a", .str "z"] := by decide
 
 /- Only the top nodes of the incoming children matter for the keys of this level (their subtrees
    matter one level down, through `rec`). -/
 theorem C08_notnew_dict_no_new_key_top (rec : Node → Node → Except Err (Node × Bool)) (sf : Flags)
-    (sk : CompKind) (hsk : sk.isDictFam = true) (scs ocs scs' : List (Key × Node))
-    (hn : ∀ kv ∈ ocs, eNew kv.2.flags = false) (h : mergeLoop rec sf sk scs ocs = .ok scs') :
-    ∀ k, k ∈ akeys scs' → k ∈ akeys scs :=
+    (sk : CompKind) (exc : List Path) (hsk : sk.isDictFam = true) (scs ocs scs' : List (Key × Node))
+    (hn : ∀ kv ∈ ocs, eNew kv.2.flags = false) (h : mergeLoop rec sf sk exc scs ocs = .ok scs') :
+    ∀ k, k ∈ akeys scs' → k ∈ akeys scs ∨ [k] ∈ exc :=
   c08_mergeLoop_no_new_key rec hsk ocs scs scs' hn h
 
 example : ∀ kv ∈ c08Ocs, eNew kv.2.flags = false := by
   intro kv h; simp [c08Ocs] at h; rcases h with h | h <;> subst h <;> rfl
 
 /- "otherwise MergeError naming a missing path": when the loop reaches a key `k` that `self` does
-   not have and the incoming value has `allow_new` off, the merge fails naming exactly `[k]`. -/
+   not have and the incoming value has `allow_new` off, the merge fails naming exactly `[k]`
+   (unless `k` is a key the pruning by a deleting `other` has just removed: `[k] ∉ exc`, trivially
+   true for the `exc = []` of a non-deleting `other`). -/
 theorem C08_notnew_missing_key_error (rec : Node → Node → Except Err (Node × Bool)) (sf : Flags)
-    (sk : CompKind) (acc : List (Key × Node)) (k : Key) (v : Node) (rest : List (Key × Node))
-    (hg : getChild sk k acc = none) (hv : eNew v.flags = false) :
-    mergeLoop rec sf sk acc ((k, v) :: rest) = .error (.notnew [k]) :=
-  c08_mergeLoop_missing_key rec sf sk acc k v rest hg hv
+    (sk : CompKind) (exc : List Path) (acc : List (Key × Node)) (k : Key) (v : Node)
+    (rest : List (Key × Node))
+    (hg : getChild sk k acc = none) (hv : eNew v.flags = false) (hx : [k] ∉ exc) :
+    mergeLoop rec sf sk exc acc ((k, v) :: rest) = .error (.notnew [k]) :=
+  c08_mergeLoop_missing_key rec sf sk acc k v rest hg hv hx
 
-example : mergeLoop (mergeF 3) {} .dict c08Base.children
+example : mergeLoop (mergeF 3) {} .dict [] c08Base.children
     ((.str "typo", .leaf c08Off (.scalar .null)) :: c08Ocs) = .error (.notnew [.str "typo"]) := rfl
 
 /- General position: after any prefix `pre` of keys whose steps succeeded (leaving `acc1`), the
    first key missing in the accumulated children is reported, whatever follows. -/
 theorem C08_notnew_first_missing_key_error (rec : Node → Node → Except Err (Node × Bool)) (sf : Flags)
-    (sk : CompKind) (scs pre acc1 : List (Key × Node)) (k : Key) (v : Node) (rest : List (Key × Node))
-    (hpre : mergeLoop rec sf sk scs pre = .ok acc1)
-    (hg : getChild sk k acc1 = none) (hv : eNew v.flags = false) :
-    mergeLoop rec sf sk scs (pre ++ (k, v) :: rest) = .error (.notnew [k]) := by
+    (sk : CompKind) (exc : List Path) (scs pre acc1 : List (Key × Node)) (k : Key) (v : Node)
+    (rest : List (Key × Node))
+    (hpre : mergeLoop rec sf sk exc scs pre = .ok acc1)
+    (hg : getChild sk k acc1 = none) (hv : eNew v.flags = false) (hx : [k] ∉ exc) :
+    mergeLoop rec sf sk exc scs (pre ++ (k, v) :: rest) = .error (.notnew [k]) := by
   rw [c08_mergeLoop_append rec sf sk pre scs acc1 _ hpre]
-  exact c08_mergeLoop_missing_key rec sf sk acc1 k v rest hg hv
+  exact c08_mergeLoop_missing_key rec sf sk acc1 k v rest hg hv hx
 
-example : mergeLoop (mergeF 3) {} .dict c08Base.children
+example : mergeLoop (mergeF 3) {} .dict [] c08Base.children
     (c08Ocs ++ (.str "typo", .leaf c08Off (.scalar .null)) :: c08Ocs) = .error (.notnew [.str "typo"]) := rfl
 
 /-! ### 4. Command-line overrides -/
